@@ -206,7 +206,10 @@ func init() {
 			// produce plus legacy logs; a hand-made "canceled but claimed" item does lose its
 			// claim in compaction, which is outside the property)
 			Craft2Quick: famLegacy(300, "compact"), Craft2Thorough: famLegacy(5000, "compact"),
-			Sim: with(famFull(12), func(m *SeqModel) { m.MaxTasks = 3; m.ViewMode = "timed" }), SimNumQuick: 60, SimNumThorough: 2000}
+			// (crafted stores whose state/claimant pairs are all legal ARE within the property)
+			CraftQuick:    with(famCraft(400, "compact"), func(m *SeqModel) { m.Name, m.CraftLegal, m.ViewMode = "crafted-legal", true, "timed" }),
+			CraftThorough: with(famCraft(5000, "compact"), func(m *SeqModel) { m.Name, m.CraftLegal, m.ViewMode = "crafted-legal", true, "timed" }),
+			Sim:           with(famFull(12), func(m *SeqModel) { m.MaxTasks = 3; m.ViewMode = "timed" }), SimNumQuick: 60, SimNumThorough: 2000}
 	}
 	registry["C12"] = func() Check {
 		return &SeqCheck{Prop: "C12",
